@@ -535,7 +535,14 @@ def unit_semantic(chk, program):
         noq = A.AObj(id=A.AStr([('lit', 'noq')]), physical_quantities=None, unit_of_measurement=None, value=A.sym_int('valn', 32), raw_value=A.sym_int('rawn', 32),
                      part_of_primary_key=False, name=None, description=None, type=A.AOpaque('FieldTypes.NUMBER'))
         noq.attrs['__q__'] = 'none'
-        return fs + [deg, noq]
+        extra = []
+        for j, (q_, u_) in enumerate(sorted(SI_UNIT.items())):
+            # the SI unit label of a convertible quantity on a field that has no physical quantity (an offset, a rate): not a value of that quantity
+            o = A.AObj(id=A.AStr([('lit', f"nq{j}")]), physical_quantities=None, unit_of_measurement=A.AStr([('lit', u_)]), value=A.sym_int(f"valq{j}", 32), raw_value=A.sym_int(f"rawq{j}", 32),
+                       part_of_primary_key=False, name=None, description=None, type=A.AOpaque('FieldTypes.NUMBER'))
+            o.attrs['__q__'] = f"none({u_})"
+            extra.append(o)
+        return fs + [deg, noq] + extra
     def snap(fs):
         return [(f.attrs['value'], f.attrs['unit_of_measurement'], f.attrs['raw_value']) for f in fs]
     def run(prefs):
